@@ -1224,6 +1224,72 @@ impl ValueTable {
 		Ok(())
 	}
 
+	/// Verification hook: raw structural view of the table file (no log overlay).
+	#[cfg(pdb_verif)]
+	pub fn verif_dump(&self) -> Result<crate::verif::TableDump> {
+		let filled = self.filled.load(Ordering::Relaxed);
+		let last_removed = self.last_removed.load(Ordering::Relaxed);
+		let mut out = crate::verif::TableDump {
+			tier: self.id.size_tier(),
+			entry_size: self.entry_size,
+			multipart: self.multipart,
+			filled,
+			last_removed,
+			free_list: Vec::new(),
+			slots: Vec::new(),
+		};
+		if self.file.map.read().is_none() {
+			return Ok(out)
+		}
+		let mut next = last_removed;
+		let mut steps = 0;
+		while next != 0 && steps <= filled {
+			out.free_list.push(next);
+			if next >= filled {
+				break
+			}
+			let mut buf = PartialEntry::new_uninit();
+			self.file.read_at(buf.as_mut(), next * self.entry_size as u64)?;
+			buf.skip_size();
+			next = buf.read_next();
+			steps += 1;
+		}
+		for index in 1..filled {
+			let mut buf = PartialKeyEntry::new_uninit();
+			let len = std::cmp::min(40, self.entry_size as usize);
+			self.file.read_at(&mut buf.as_mut()[0..len], index * self.entry_size as u64)?;
+			if buf.is_tombstone() {
+				buf.skip_size();
+				let next = buf.read_next();
+				out.slots.push((index, 0, next, Vec::new()));
+			} else if self.multipart && buf.is_multi(self.db_version) {
+				let head = buf.is_multihead();
+				buf.skip_size();
+				let next = buf.read_next();
+				if head {
+					if self.ref_counted {
+						buf.read_rc();
+					}
+					let tail = buf.read_partial().to_vec();
+					out.slots.push((index, 1, next, tail));
+				} else {
+					out.slots.push((index, 2, next, Vec::new()));
+				}
+			} else if self.multipart {
+				// last part of a chain
+				out.slots.push((index, 2, 0, Vec::new()));
+			} else {
+				buf.skip_size();
+				if self.ref_counted {
+					buf.read_rc();
+				}
+				let tail = buf.read_partial().to_vec();
+				out.slots.push((index, 1, 0, tail));
+			}
+		}
+		Ok(out)
+	}
+
 	/// Validate free records sequence.
 	pub fn check_free_refs(&self) -> Result<u64> {
 		let _free_entries_guard = if let Some(free_entries) = &self.free_entries {
